@@ -305,6 +305,12 @@ class TwoPass(PropBase):
         for bid, cmds, g, rng in bases:
             tr = real.get(bid, [])
             if len(tr) < len(cmds):
+                # the crate hung or the driver died on a plain history: nothing can be derived from it, and that
+                # must not pass silently (reported by ./check as a broken obligation)
+                self.stats["first_pass_failed"] = self.stats.get("first_pass_failed", 0) + 1
+                self.gen_problems = getattr(self, "gen_problems", []) + [
+                    "first pass of base history %s stopped after %d of %d commands: %r" % (
+                        bid, len(tr), len(cmds), (outcome_of(tr[-1]) if tr else None))]
                 continue
             cases.extend(self.derive(rng, bid, cmds, g, tr))
         return cases
@@ -735,7 +741,9 @@ class C06(PropBase):
                     n = len(toks) - 3
                     for k in range(n):
                         first_file[(toks[1], res[1] - n + 1 + k)] = f
-                        if writes[0]["off"] == 0 and f == begin_file + 1 and cursor_off == mrl.FILE:
+                        # the call began in file f-1 and its FIRST write already goes to offset 0 of file f: the
+                        # cursor was exactly at the end of f-1 (padding, when needed, is written to f-1 first)
+                        if writes[0]["off"] == 0 and f == begin_file + 1 and cursor_off in (mrl.FILE, None):
                             exact_fit.add((toks[1], res[1] - n + 1 + k))
                 if toks[0] == "delete" and res[0] == "ok":
                     for key in [k for k in first_file if k[0] == toks[1]]:
@@ -1249,7 +1257,7 @@ class C09(DamageBase):
         o = tr[-1]
         out = outcome_of(o)
         if out != "out open ok":
-            vs.append({"msg": "damage inside one frame of cmd %s `%s` (%s): open failed: %r" % (hit, base[hit] if hit is not None else "", cmds[di], out), "shape": "frame-damage-open-failed"})
+            vs.append({"msg": "damage inside one frame of cmd %s `%s` (%s): open failed: %r" % (hit, base[hit] if hit is not None else "", cmds[di], out), "shape": "frame-damage-open-failed", "shrinkable": False})
             return vs
         # records retained in the undamaged final state, with the command that appended them
         ref = RefMap()
@@ -1275,7 +1283,7 @@ class C09(DamageBase):
                 rec = (pos,) + payload_token_key(t)
                 if rec not in have:
                     vs.append({"msg": "damage inside one frame of cmd %s `%s` lost record %d of queue %s, appended by cmd %s" % (
-                        hit, base[hit][:60] if hit is not None else "", pos, tok, owner.get((tok, pos))), "shape": "collateral-loss"})
+                        hit, base[hit][:60] if hit is not None else "", pos, tok, owner.get((tok, pos))), "shape": "collateral-loss", "shrinkable": False})
                     return vs
         return vs
 
@@ -1312,6 +1320,7 @@ def forge_block_entries(rng, qnames):
 
 class C10(DamageBase):
     pid = "C10"
+    judges_hang_itself = True
     prefixes = ("out", "q", "r", "lr", "acc")
     rule = ("base histories ended by a clean drop, then arbitrary derivations of the directory: overwritten / zeroed runs, truncation of a file to {0,1,B-1,B,B+1,2B,random} bytes, "
             "removed files, duplicated and transposed files (copy of file i over file j), stray entries (near-miss names, sub-directory, symlink), random blocks, and CRC-valid "
@@ -1428,12 +1437,20 @@ class C10(DamageBase):
             if c["name"] == "driver-error":
                 bad = "the driver died: %s" % out
             if bad:
-                forged_max = any(("ff" * 8) in x or ("fe" + "ff" * 7) in x for x in cmds if x.startswith("damage "))
-                if cid.endswith("overlong") and "open: out open err=Panic" in bad:
-                    vs.append({"msg": "cmd %d: %s (last WAL file longer than a full file)" % (i, bad), "shape": "overlong-file"})
+                # where and why it panicked (the harness's `pan` line: "<file>:<line> <message>"); the two recorded
+                # findings are recognised by their call site and message, never by the look of the input
+                pan = next((l[4:] for l in c["lines"] if l.startswith("pan ")), "")
+                is_panic = "Panic" in bad or "panicked" in bad
+                if is_panic and "rolling/directory.rs" in pan and "num_bytes_remaining_in_block" in pan and \
+                        any(x.startswith(("cpfile", "truncfile", "seedfile")) for x in cmds):
+                    vs.append({"msg": "cmd %d: %s at %s (a WAL file longer than a full file)" % (i, bad, pan), "shape": "overlong-file"})
                     return vs
-                shape = "position-u64-max" if (cid.endswith("u64max") or (forged_max and "Hang" not in bad and "driver died" not in bad)) else "panic-or-hang"
-                vs.append({"msg": "cmd %d: %s" % (i, bad), "shape": shape})
+                forged_max = any(("ff" * 8) in x for x in cmds if x.startswith("damage "))
+                if is_panic and "mem/queue.rs" in pan and "overflow" in pan and forged_max:
+                    shape = "position-u64-max"
+                else:
+                    shape = "panic-or-hang"
+                vs.append({"msg": "cmd %d: %s%s" % (i, bad, (" at " + pan) if pan else ""), "shape": shape})
                 return vs
         return vs
 
@@ -1441,6 +1458,7 @@ class C10(DamageBase):
 # =========================================================================== C11
 class C11(TwoPass):
     pid = "C11"
+    judges_hang_itself = True
     prefixes = ("out", "ev", "q", "r")
     policies = ["af"]
     per_base_quick = 40
@@ -1674,13 +1692,13 @@ class C12(TwoPass):
             return vs
         # must be a suffix of the batch ...
         if present != batch[len(batch) - len(present):]:
-            vs.append({"msg": "batch of cmd %d `%s...`: recovered records %r are not a tail of the batch %r" % (bi, cmds[bi][:50], [b[0] for b in present], [b[0] for b in batch]), "shape": "batch-hole"})
+            vs.append({"msg": "batch of cmd %d `%s...`: recovered records %r are not a tail of the batch %r" % (bi, cmds[bi][:50], [b[0] for b in present], [b[0] for b in batch]), "shape": "batch-hole", "shrinkable": False})
             return vs
         # ... and everything missing must be explained by a truncation issued after the batch
         missing = batch[: len(batch) - len(present)]
         if missing and missing[-1][0] > tmax:
             vs.append({"msg": "batch of cmd %d: records %r are missing although no later truncation covers them (highest later truncation %d); present %r" % (
-                bi, [b[0] for b in missing], tmax, [b[0] for b in present]), "shape": "batch-partial"})
+                bi, [b[0] for b in missing], tmax, [b[0] for b in present]), "shape": "batch-partial", "shrinkable": False})
         return vs
 
 
@@ -1724,6 +1742,15 @@ class C14(PropBase):
             for pol in self.policies:
                 cases.append(("%s%d_%s" % (tag, i, pol), [c.replace("POL", pol) for c in g.cmds]))
         return cases
+
+    def corpus(self):
+        """a stored script is one member of a group: rebuild the whole group (the same history under every
+        policy) so that the metamorphic oracle has something to compare"""
+        out = []
+        for cid, cmds in PropBase.corpus(self):
+            for pol in self.policies:
+                out.append(("%s_%s" % (cid, pol), [("open %s" % pol) if c.startswith("open ") else c for c in cmds]))
+        return out
 
     def execute(self, cases, consts):
         res = PropBase.execute(self, cases, consts)
@@ -1815,6 +1842,30 @@ class C18(PropBase):
         cases.extend(self.crash_family(total, tag))
         return cases
 
+    def corpus(self):
+        """a stored script is a full history: rebuild its projections (all queues but the one whose call a crash
+        interrupts) so that the metamorphic oracle has something to compare"""
+        out = []
+        for cid, cmds in PropBase.corpus(self):
+            gid = cid[:-5] if cid.endswith("_full") else cid
+            out.append((gid + "_full", cmds))
+            names = []
+            for c in cmds:
+                t = split_cmd(c)
+                if t and t[0] in MUT and t[1] not in names:
+                    names.append(t[1])
+            inflight = set()
+            for i, c in enumerate(cmds):
+                if c.startswith("crash ") and i > 0:
+                    t = split_cmd(cmds[i - 1])
+                    if t and t[0] in MUT:
+                        inflight.add(t[1])
+            for k, tok in enumerate(names[:8]):
+                if tok in inflight:
+                    continue
+                out.append(("%s_p%d" % (gid, k), [("drop" if c.startswith("crash ") else c) for c in cmds if addressed_to(c, tok)]))
+        return out
+
     def crash_family(self, n, tag):
         """a crash in the middle of a call addressed to ANOTHER queue (flush-per-call policy, so every completed
         call is durable): for every queue q other than the one in flight, the full history with the crash and
@@ -1833,6 +1884,8 @@ class C18(PropBase):
         for bid, cmds, g, rng in bases:
             tr = real.get(bid, [])
             if len(tr) < len(cmds):
+                self.gen_problems = getattr(self, "gen_problems", []) + [
+                    "first pass of base history %s stopped after %d of %d commands" % (bid, len(tr), len(cmds))]
                 continue
             pts = [p for p in crash_points(rng, cmds, tr, 400) if p[0] < len(cmds) and split_cmd(cmds[p[0]])[0] in MUT]
             # prefer torn writes, block-boundary tears first
